@@ -4,7 +4,7 @@
 
 use chrono::{
     DateTime, Datelike, Duration, Local, LocalResult, NaiveDate, NaiveDateTime, NaiveTime,
-    TimeZone, Timelike,
+    TimeZone, Timelike, Utc,
 };
 #[cfg(test)]
 use mock_instant::{SystemTime, UNIX_EPOCH};
@@ -13,7 +13,7 @@ use rand::Rng;
 use serde::de;
 #[cfg(feature = "config_parsing")]
 use std::fmt;
-use std::sync::RwLock;
+use std::{convert::TryFrom, sync::RwLock};
 
 use crate::append::rolling_file::{policy::compound::trigger::Trigger, LogFile};
 #[cfg(feature = "config_parsing")]
@@ -196,7 +196,11 @@ impl TimeTrigger {
             #[cfg(feature = "verif_hooks")]
             let random_delay = crate::verif::rand_below("time.delay", config.max_random_delay)
                 .unwrap_or(random_delay);
-            next_time + Duration::seconds(random_delay as i64)
+            i64::try_from(random_delay)
+                .ok()
+                .and_then(Duration::try_seconds)
+                .and_then(|delay| next_time.checked_add_signed(delay))
+                .unwrap_or_else(TimeTrigger::far_future)
         } else {
             next_time
         };
@@ -233,66 +237,79 @@ impl TimeTrigger {
         // make the computation panic nor yield a time that is not in the future.
         let now = current.naive_local();
         let date = now.date();
-        let year = date.year();
+        let midnight = date.and_time(NaiveTime::MIN);
+        // `None` means the boundary lies beyond what can be represented.
         let next = match interval {
             TimeTriggerInterval::Year(n) => {
-                let n = n as i32;
+                let year = date.year() as i64;
                 let increment = if modulate { n - year % n } else { n };
-                let year_new = year + increment;
-                NaiveDate::from_ymd_opt(year_new, 1, 1)
-                    .expect("year out of range")
-                    .and_time(NaiveTime::MIN)
+                year.checked_add(increment)
+                    .and_then(|year_new| i32::try_from(year_new).ok())
+                    .and_then(|year_new| NaiveDate::from_ymd_opt(year_new, 1, 1))
+                    .map(|date_new| date_new.and_time(NaiveTime::MIN))
             }
             TimeTriggerInterval::Month(n) => {
-                let month0 = date.month0();
-                let n = n as u32;
+                let month0 = date.month0() as i64;
                 let increment = if modulate { n - month0 % n } else { n };
-                let num_months = (year as u32) * 12 + month0;
-                let num_months_new = num_months + increment;
-                let year_new = (num_months_new / 12) as i32;
-                let month_new = (num_months_new) % 12 + 1;
-                NaiveDate::from_ymd_opt(year_new, month_new, 1)
-                    .expect("year out of range")
-                    .and_time(NaiveTime::MIN)
+                let num_months = (date.year() as i64) * 12 + month0;
+                num_months
+                    .checked_add(increment)
+                    .and_then(|num_months_new| {
+                        let year_new = i32::try_from(num_months_new / 12).ok()?;
+                        let month_new = (num_months_new % 12 + 1) as u32;
+                        NaiveDate::from_ymd_opt(year_new, month_new, 1)
+                    })
+                    .map(|date_new| date_new.and_time(NaiveTime::MIN))
             }
             TimeTriggerInterval::Week(n) => {
                 let week0 = date.iso_week().week0() as i64;
                 let weekday = date.weekday().num_days_from_monday() as i64; // Monday is the first day of the week
-                let time = date.and_time(NaiveTime::MIN);
                 let increment = if modulate { n - week0 % n } else { n };
-                time + Duration::weeks(increment) - Duration::days(weekday)
+                Duration::try_weeks(increment)
+                    .and_then(|delta| midnight.checked_add_signed(delta))
+                    .and_then(|time| time.checked_sub_signed(Duration::days(weekday)))
             }
             TimeTriggerInterval::Day(n) => {
                 let ordinal0 = date.ordinal0() as i64;
-                let time = date.and_time(NaiveTime::MIN);
                 let increment = if modulate { n - ordinal0 % n } else { n };
-                time + Duration::days(increment)
+                Duration::try_days(increment).and_then(|delta| midnight.checked_add_signed(delta))
             }
             TimeTriggerInterval::Hour(n) => {
-                let hour = now.hour();
-                let time = date.and_time(NaiveTime::MIN) + Duration::hours(hour as i64);
-                let increment = if modulate { n - (hour as i64) % n } else { n };
-                time + Duration::hours(increment)
+                let hour = now.hour() as i64;
+                let time = midnight + Duration::hours(hour);
+                let increment = if modulate { n - hour % n } else { n };
+                Duration::try_hours(increment).and_then(|delta| time.checked_add_signed(delta))
             }
             TimeTriggerInterval::Minute(n) => {
-                let min = now.minute();
-                let time = date.and_time(NaiveTime::MIN)
-                    + Duration::hours(now.hour() as i64)
-                    + Duration::minutes(min as i64);
-                let increment = if modulate { n - (min as i64) % n } else { n };
-                time + Duration::minutes(increment)
+                let min = now.minute() as i64;
+                let time =
+                    midnight + Duration::hours(now.hour() as i64) + Duration::minutes(min);
+                let increment = if modulate { n - min % n } else { n };
+                Duration::try_minutes(increment).and_then(|delta| time.checked_add_signed(delta))
             }
             TimeTriggerInterval::Second(n) => {
-                let sec = now.second();
-                let time = date.and_time(NaiveTime::MIN)
+                let sec = now.second() as i64;
+                let time = midnight
                     + Duration::hours(now.hour() as i64)
                     + Duration::minutes(now.minute() as i64)
-                    + Duration::seconds(sec as i64);
-                let increment = if modulate { n - (sec as i64) % n } else { n };
-                time + Duration::seconds(increment)
+                    + Duration::seconds(sec);
+                let increment = if modulate { n - sec % n } else { n };
+                Duration::try_seconds(increment).and_then(|delta| time.checked_add_signed(delta))
             }
         };
-        TimeTrigger::resolve_local(next, current)
+        match next {
+            Some(next) => TimeTrigger::resolve_local(next, current),
+            None => TimeTrigger::far_future(),
+        }
+    }
+
+    /// The instant used when an interval is so large that its next boundary
+    /// cannot be represented: the trigger then simply never fires.
+    fn far_future() -> DateTime<Local> {
+        Utc.with_ymd_and_hms(9999, 12, 31, 0, 0, 0)
+            .single()
+            .map(|time| time.with_timezone(&Local))
+            .unwrap_or_else(|| DateTime::<Utc>::MAX_UTC.with_timezone(&Local))
     }
 
     /// Maps a local wall-clock time lying after `current` to an instant strictly
